@@ -69,6 +69,7 @@ def match_weekno_year_boundary(p):
         c2 = dict(c)
         c2["bysetpos"] = None
         c2["count"] = None
+        c2["N"] = 600       # a missed / extra boundary day shifts positions: look at the whole horizon
         orc = RC.TimedOracle(ORACLE_EXE)
         try:
             r = RC.evaluate(c2, orc)
@@ -101,8 +102,53 @@ def match_weekly_setpos_first_week(p):
     return fd is not None and o0 - back <= fd // 86400 < o0 - back + 7
 
 
-MATCHERS = {"weekno_year_boundary": match_weekno_year_boundary,
-            "weekly_setpos_first_week": match_weekly_setpos_first_week}
+def match_weekly_easter_year_end(p):
+    """D1f: WEEKLY + BYEASTER; the first differing instant is one of the first 7 days of January and
+    lies in the week that straddles the year boundary (with BYSETPOS: same for the rule without it)"""
+    if p.get("kind") != "spec":
+        return False
+    c = p["input"]
+    if c["freq"] != 2 or not c.get("byeaster") or p["impl"]["status"] == "R" and p["impl"]["exn"] != 1:
+        return False
+    if c.get("bysetpos"):
+        c2 = dict(c)
+        c2["bysetpos"] = None
+        c2["count"] = None
+        c2["N"] = 600       # a missed / extra boundary day shifts positions: look at the whole horizon
+        orc = RC.TimedOracle(ORACLE_EXE)
+        try:
+            r = RC.evaluate(c2, orc)
+        finally:
+            orc.close()
+        if not r["spec_verdict"] or r["spec_verdict"] == "inconclusive":
+            return False
+        fd = _payload_first_diff({"impl": r["impl"], "spec": r["spec"]})
+    else:
+        fd = _payload_first_diff(p)
+    if fd is None:
+        return False
+    o = fd // 86400
+    try:
+        d = datetime.date.fromordinal(o)
+    except (ValueError, OverflowError):
+        return False
+    return d.month == 1 and d.day <= 7 and _straddles_year(o, c["wkst"])
+
+
+def match_year1_weekno(p):
+    """start in year 1, BYWEEKNO supplied: ValueError from datetime.date(0, 1, 1) at the first next()"""
+    if p.get("kind") != "spec":
+        return False
+    c = p["input"]
+    i = p["impl"]
+    return (c["start"]["y"] == 1 and bool(c.get("byweekno")) and i["status"] == "R" and i["exn"] == 1
+            and i["phase"] == 1 and not i["items"] and -1 not in c["byweekno"])
+
+
+MATCHERS = {"year1_weekno": match_year1_weekno,
+            "weekno_year_boundary": match_weekno_year_boundary,
+            "weekly_setpos_first_week": match_weekly_setpos_first_week,
+            "weekly_easter_year_end": match_weekly_easter_year_end}
 
 
 # ------------------------------------------------------------------ streams
@@ -392,7 +438,28 @@ def main():
         "compared": "first N<=60 occurrences (wall clock, whole seconds), status exhausted/cut/raised, exception "
                     "class, constructor-vs-iteration phase; every yielded value checked for microsecond == 0, "
                     "tzinfo is dtstart's, strictly increasing",
-        "partial_theorems": [t for t in props["theorems"] if "partial" in t],
+        "partial_theorems": [t for t in props["theorems"] if "partial" in t or "guarded" in t],
+        "theorem_status": {
+            "guards": {
+                "C01_wnomask_correct_guarded": "BYWEEKNO members within -51..51, years 2..9999; the complement "
+                                               "(+-52, +-53) is refuted by C01_wnomask_refuted = F-C01-weekno",
+                "C01_eastermask_correct_partial": "years 1583..4099 (the range of C19's theorem); the 7-day "
+                                                  "extension is refuted by C01_eastermask_extension_refuted "
+                                                  "= F-C01-easter-week",
+                "C01_cl_weekday_plain_correct": "no nth-weekday mask (plain BYDAY)"},
+            "not_proved_correspondence_only": [
+                "rrule_iter_correct (model = spec for every rule in spec_wf): FALSE of the code (4 refuted "
+                "witnesses); not proved even under the findings' guards",
+                "composition of the clause / mask theorems into day_filter_correct over day_rejected, and the "
+                "link normalised rule <-> raw arguments (sort_set membership)",
+                "MONTHLY and WEEKLY day sets (mdayset, wdayset), BYSETPOS selection, BYWEEKNO/nth/easter "
+                "clauses inside the filter",
+                "advance_correct as a statement about the whole loop (cursor of pass k = period k); proved: "
+                "the carry arithmetic of every YEARLY..DAILY branch",
+                "sub-daily advance layer (filtered jump, rep_rate//gcd search, htimeset/mtimeset/stimeset); "
+                "proved: __mod_distance and __construct_byset specifications",
+                "strictly increasing / no duplicates as a theorem (checked on every yielded sequence instead)",
+                "no IndexError / only ValueError for the whole loop (proved per mask builder)"]},
         "refuted_theorems": [t for t in props["theorems"] if "refuted" in t],
         "differential_only": ["sub-daily advance layer (HOURLY/MINUTELY/SECONDLY jumps, __mod_distance)",
                               "rules outside spec_wf (empty BY-lists, BYMONTHDAY 0, out-of-range time parts): "
